@@ -7,54 +7,56 @@ Definition plain (line q : N) : directive := mkDir line [q] false.
 Definition leaf (v : N) : file := mkFile v 100 [].
 
 (* ---------------- C10 ---------------- *)
-(* the statement on diagnostics: the loader's errors are those of the stack-based traversal *)
-Definition C10_cycles_exact_statement : Prop :=
-  forall fs L root m r,
-    load_root fs L [] root None = Some m -> ref_root fs L root None = Some r ->
-    ro_deep r = false -> errs_same_multiset (o_errs m) (ro_errs r) = true.
+(* sample graphs (the first three used to be refutation witnesses before the loader was repaired) *)
 
 (* a diamond: 0 -> 1, 2 ; 1 -> 3 ; 2 -> 3 *)
 Definition diamond : fsys :=
   [ (0, mkFile 1 100 [plain 2 1; plain 3 2]); (1, mkFile 1 100 [plain 12 3]);
     (2, mkFile 1 100 [plain 22 3]); (3, leaf 1) ].
 
-Lemma diamond_reports_cycle :
-  exists m r, load_root diamond big [] 0 None = Some m /\ ref_root diamond big 0 None = Some r /\
-    ro_deep r = false /\ o_errs m = [mkErr ECycle 3 22] /\ ro_errs r = [] /\
-    option_map r_order (o_res m) = Some [1; 3; 2] /\ ro_order r = [1; 3; 2].
-Proof. vm_compute. do 2 eexists. repeat split; reflexivity. Qed.
+Lemma diamond_is_not_a_cycle :
+  exists m, load_root diamond big [] 0 None = Some m /\ o_errs m = [] /\
+    option_map r_order (o_res m) = Some [1; 3; 2].
+Proof. vm_compute. eexists. repeat split; reflexivity. Qed.
 
-Lemma cycles_exact_refuted : ~ C10_cycles_exact_statement.
-Proof.
-  intro H. destruct diamond_reports_cycle as (m & r & Hm & Hr & Hd & He & Hre & _).
-  specialize (H diamond big 0 m r Hm Hr Hd). rewrite He, Hre in H. vm_compute in H. discriminate H.
-Qed.
-
-(* the same file included twice from one file *)
+(* the same file included twice from one file: loaded once, no diagnostic *)
 Definition double_inc : fsys := [ (0, mkFile 1 100 [plain 2 1; plain 3 1]); (1, leaf 1) ].
-Lemma double_include_reports_cycle :
-  exists m, load_root double_inc big [] 0 None = Some m /\ o_errs m = [mkErr ECycle 1 3].
-Proof. vm_compute. eexists. split; reflexivity. Qed.
-
-(* the depth limit is a count of files seen, not a nesting depth, and its error carries no
-   directive line: two siblings at depth 1 under a limit of 2 *)
-Definition siblings : fsys := [ (0, mkFile 1 100 [plain 2 1; plain 3 2]); (1, leaf 1); (2, leaf 1) ].
-Lemma depth_is_a_count :
-  exists m r, load_root siblings (mkLim 10485760 2) [] 0 None = Some m /\
-    ref_root siblings (mkLim 10485760 2) 0 None = Some r /\
-    o_errs m = [mkErr ETooDeep 2 0] /\ ro_errs r = [] /\ ro_order r = [1; 2] /\
+Lemma double_include_loads_once :
+  exists m, load_root double_inc big [] 0 None = Some m /\ o_errs m = [] /\
     option_map r_order (o_res m) = Some [1].
-Proof. vm_compute. do 2 eexists. repeat split; reflexivity. Qed.
+Proof. vm_compute. eexists. repeat split; reflexivity. Qed.
+
+(* the depth limit counts the files on the inclusion path: two siblings at depth 1 under a limit
+   of 2 are both loaded; a grandchild is refused on the directive that names it and its sibling
+   include is still followed *)
+Definition siblings : fsys := [ (0, mkFile 1 100 [plain 2 1; plain 3 2]); (1, leaf 1); (2, leaf 1) ].
+Lemma depth_is_a_path_length :
+  exists m, load_root siblings (mkLim 10485760 2) [] 0 None = Some m /\ o_errs m = [] /\
+    option_map r_order (o_res m) = Some [1; 2].
+Proof. vm_compute. eexists. repeat split; reflexivity. Qed.
+
+Definition chain : fsys := [ (0, mkFile 1 100 [plain 2 1; plain 3 3]); (1, mkFile 1 100 [plain 12 2]); (2, leaf 1); (3, leaf 1) ].
+Lemma too_deep_on_its_directive :
+  exists m, load_root chain (mkLim 10485760 2) [] 0 None = Some m /\ o_errs m = [mkErr ETooDeep 2 12] /\
+    option_map r_order (o_res m) = Some [1; 3].
+Proof. vm_compute. eexists. repeat split; reflexivity. Qed.
+
+(* a real cycle: 0 -> 1 -> 2 -> 1 *)
+Definition looped : fsys := [ (0, mkFile 1 100 [plain 2 1]); (1, mkFile 1 100 [plain 12 2]); (2, mkFile 1 100 [plain 22 1]) ].
+Lemma cycle_is_reported_where_it_closes :
+  exists m, load_root looped big [] 0 None = Some m /\ o_errs m = [mkErr ECycle 1 22] /\
+    option_map r_order (o_res m) = Some [1; 2].
+Proof. vm_compute. eexists. repeat split; reflexivity. Qed.
 
 (* root-level verdicts, for all file systems *)
 Lemma root_missing fs L c root :
   flookup root fs = None ->
-  load_root fs L c root None = Some (mkOut None [mkErr ENotFound root 0] (mkLS [] c) [] []).
+  load_root fs L c root None = Some (mkOut None [mkErr ENotFound root 0] (mkLS [] [] c) [] []).
 Proof. intro H. unfold load_root. rewrite H. reflexivity. Qed.
 
 Lemma root_too_large fs L c root f :
   flookup root fs = Some f -> (max_size L <? f_size f) = true ->
-  load_root fs L c root None = Some (mkOut None [mkErr ETooLarge root 0] (mkLS [] c) [] []).
+  load_root fs L c root None = Some (mkOut None [mkErr ETooLarge root 0] (mkLS [] [] c) [] []).
 Proof. intros H1 H2. unfold load_root. rewrite H1, H2. reflexivity. Qed.
 
 
